@@ -350,6 +350,14 @@ class Cursor:
         return self.__symseq__()
 
     @property
+    def lastrowid(self):
+        k = getattr(self.db, "last_insert_key", None)
+        if k is None:
+            c = cur()
+            k = c.fresh(c.fresh_name(f"q{self.ordinal}.lastrowid"), INT)
+        return wrap_int(k)
+
+    @property
     def rowcount(self):
         c = cur()
         n = c.fresh(c.fresh_name(f"q{self.ordinal}.rowcount"), INT)
